@@ -226,8 +226,9 @@ func CreateCertificate(template, parent *Certificate, publicKey *sm2.PublicKey, 
 	c.Raw = tbsCertContents
 
 	digest := tbsCertContents
-	switch template.SignatureAlgorithm {
-	case SM2WithSM3, SM2WithSHA1, SM2WithSHA256:
+	_, signerIsSM2 := signer.Public().(*sm2.PublicKey)
+	switch {
+	case signerIsSM2: // SM2 signs the message itself (ZA || M is hashed inside), also when the algorithm is left to default
 		break
 	default:
 		h := hashFunc.New()
